@@ -7,7 +7,7 @@ import numpy
 from .. import tree  # noqa: F401
 import numpoly
 
-from ..alpha import alpha, build_checked, model_of
+from ..alpha import alpha, build_checked, model_of, spec
 from ..model import V, compare, mono_key, name_index
 from .. import space
 from . import C01
@@ -88,6 +88,7 @@ def cases(tier, seed):
         for i in range(len(C01.names_pool())):
             out.append({"k": "namesrow", "g": g, "r": r, "i": i})
         out.append({"k": "shapes", "g": g, "r": r})
+        out.append({"k": "samekeys", "g": g, "r": r})
         out.append({"k": "numeric", "g": g, "r": r})
         out.append({"k": "twins", "g": g, "r": r})
         out.append({"k": "wide", "g": g, "r": r})
@@ -290,6 +291,46 @@ def run_case(case, R):
                         S[idx] = compare(dict(ea[idx]), dict(eb[idx]), names, g, r)
                     check_ops(R, a, b, S, f"shapes {sa} vs {sb}", tags + ["shapes"], spellings=("operator", "numpy"))
                     R.state(("sh", g, r, sa, sb, rot))
+        elif k == "samekeys":
+            # operands stored over one and the same exponent table (columns that are all zero in one of them included), which
+            # differ in exactly one monomial in some elements and are equal in the others; every pair of storage layouts
+            names = ("q0", "q1")
+            pool = C01.POOLS["int"][1] + [[((0, 0), 2)], [((2, 0), 1)], []]
+            M = [m_ for m_ in space.monomials(2, 2)] + [(1, 2)]
+            layouts = ("canon", "view", "T", "rev", "slice")
+            for shape in [(3,), (2, 3)]:
+                els_a = space.fill(pool, shape, 1, 1)
+                n = len(els_a)
+                for e in M:
+                    bump = [[1, 0, -2, 0, 3, 0][i % 6] for i in range(n)]
+                    els_b = []
+                    for i, t in enumerate(els_a):
+                        d = dict(t)
+                        if bump[i]:
+                            d[e] = d.get(e, 0) + bump[i]
+                        els_b.append([(ex, c) for ex, c in d.items() if c])
+
+                    def table(els):
+                        cols = {m_: [0] * n for m_ in M}
+                        for i, t in enumerate(els):
+                            for ex, c in t:
+                                cols.setdefault(tuple(ex), [0] * n)[i] = c
+                        return cols
+                    ca, cb = table(els_a), table(els_b)
+                    keys = sorted(set(ca) | set(cb))
+                    for la, lb in itertools.product(layouts, repeat=2):
+                        if "T" in (la, lb) and len(shape) < 2:
+                            continue
+                        spa = spec(names, shape, [(m_, ca.get(m_, [0] * n)) for m_ in keys], "i8", la)
+                        spb = spec(names, shape, [(m_, cb.get(m_, [0] * n)) for m_ in keys], "i8", lb)
+                        a, b = build_checked(spa), build_checked(spb)
+                        ea, eb = model_of(spa).elements(), model_of(spb).elements()
+                        S = numpy.zeros(shape, dtype=int)
+                        for idx in numpy.ndindex(*shape):
+                            S[idx] = compare(dict(ea[idx]), dict(eb[idx]), names, g, r)
+                        check_ops(R, a, b, S, f"same keys, differ at {e}, layouts {la}/{lb}, {shape}", tags + ["samekeys"])
+                        check_ops(R, b, a, -S, f"same keys, differ at {e}, layouts {lb}/{la} swapped, {shape}", tags + ["samekeys"])
+                    R.state(("samekeys", g, r, shape, e))
         elif k == "numeric":
             names = ("q0", "q1")
             pool = [[((0, 0), 2)], [((0, 0), -1)], [], [((1, 0), 1)], [((0, 0), 3), ((1, 0), 0)], [((0, 1), -1), ((0, 0), 5)]]
